@@ -174,12 +174,11 @@ impl Members {
         {
             // We check which range-bucket the RTT is
             // contained in, then update the stored index
-            for (ring, n) in RING_BUCKETS.iter().enumerate() {
-                if n.contains(&avg) {
-                    state.ring = Some(ring as u8);
-                    break;
-                }
-            }
+            // (an average beyond the last bucket means no ring at all)
+            state.ring = RING_BUCKETS
+                .iter()
+                .position(|n| n.contains(&avg))
+                .map(|ring| ring as u8);
         }
     }
 
